@@ -43,7 +43,7 @@ def ty_from_mich(m):
 
 def pushable(t):
     """can a value of this type be written as a PUSH literal (no contract / operation outside a lambda's signature)"""
-    if t[0] in ('contract', 'operation', 'never'):
+    if t[0] in ('contract', 'operation', 'never', 'big_map'):
         return False
     if t[0] == 'lambda':
         return True
@@ -57,6 +57,217 @@ def packable(t):
     if t[0] in ('option', 'list', 'set', 'or', 'pair', 'map'):
         return all(packable(a) for a in t[1:])
     return False
+
+
+# ---- binary Micheline of data expressions, written here (not pytezos' forge): the UNPACK idiom builds its inputs with it --------
+DATA_TAGS = {'False': 3, 'Elt': 4, 'Left': 5, 'None': 6, 'Pair': 7, 'Right': 8, 'Some': 9, 'True': 10, 'Unit': 11}
+
+
+def zarith(v):
+    """signed zarith: 6 bits + sign bit in the first byte, then groups of 7 bits, high bit = more"""
+    a, out = abs(v), bytearray()
+    first = (a & 0x3f) | (0x40 if v < 0 else 0)
+    a >>= 6
+    out.append(first | (0x80 if a else 0))
+    while a:
+        g = a & 0x7f
+        a >>= 7
+        out.append(g | (0x80 if a else 0))
+    return bytes(out)
+
+
+def _len4(b):
+    return len(b).to_bytes(4, 'big')
+
+
+def forge_data(m):
+    """binary Micheline of a data expression (JSON shape; `raw`: bytes pasted as they are, `text`: a string node given as bytes,
+    `tag`: a primitive given by its tag byte)"""
+    if isinstance(m, list):
+        body = b''.join(forge_data(x) for x in m)
+        return b'\x02' + _len4(body) + body
+    if 'raw' in m:
+        return m['raw']
+    if 'int' in m:
+        return b'\x00' + zarith(int(m['int']))
+    if 'string' in m:
+        return b'\x01' + _len4(m['string'].encode()) + m['string'].encode()
+    if 'text' in m:
+        return b'\x01' + _len4(m['text']) + m['text']
+    if 'bytes' in m:
+        b = bytes.fromhex(m['bytes'])
+        return b'\x0a' + _len4(b) + b
+    tag = m['tag'] if 'tag' in m else DATA_TAGS[m['prim']]
+    args, annots = m.get('args', []), m.get('annots')
+    n = len(args)
+    if n < 3:
+        head = bytes([3 + 2 * n + (1 if annots is not None else 0), tag]) + b''.join(forge_data(a) for a in args)
+        return head + (_len4(annots) + annots if annots is not None else b'')
+    body = b''.join(forge_data(a) for a in args)
+    an = annots or b''
+    return bytes([9, tag]) + _len4(body) + body + _len4(an) + an
+
+
+def scan_texts(data):
+    """the string nodes of a well-delimited binary Micheline expression (b'' if it does not parse): the texts that can reach the
+    timestamp reader when `data` is unpacked"""
+    out = []
+
+    def arr(p):
+        if p + 4 > len(data):
+            raise ValueError
+        n = int.from_bytes(data[p:p + 4], 'big')
+        if p + 4 + n > len(data):
+            raise ValueError
+        return data[p + 4:p + 4 + n], p + 4 + n
+
+    def seq(p):
+        body, end = arr(p)
+        p += 4
+        while p < end:
+            p = node(p)
+        if p != end:
+            raise ValueError
+        return p
+
+    def node(p):
+        tag = data[p]
+        p += 1
+        if tag == 0:
+            while data[p] & 0x80:
+                p += 1
+            return p + 1
+        if tag in (1, 10):
+            v, q = arr(p)
+            if tag == 1:
+                out.append(v)
+            return q
+        if tag == 2:
+            return seq(p)
+        if 3 <= tag <= 9:
+            n, an = (tag - 3) // 2, (tag - 3) % 2 == 1
+            p += 1
+            if n == 3:
+                p = seq(p)
+            else:
+                for _ in range(n):
+                    p = node(p)
+            if an or n == 3:
+                _, p = arr(p)
+            return p
+        raise ValueError
+
+    try:
+        if node(0) != len(data):
+            return []
+    except (ValueError, IndexError):
+        return []
+    return out
+
+
+def texts_of(code):
+    """every text of a program that could be read as a timestamp by an UNPACK: the string literals (PACK turns them into string
+    nodes) and the string nodes inside the byte literals that start with 05"""
+    out = set()
+
+    def walk(x):
+        if isinstance(x, list):
+            for y in x:
+                walk(y)
+        elif isinstance(x, dict):
+            if 'string' in x:
+                out.add(x['string'].encode())
+            elif 'bytes' in x:
+                b = bytes.fromhex(x['bytes'])
+                if b[:1] == b'\x05':
+                    out.update(scan_texts(b[1:]))
+            for y in x.get('args', []):
+                walk(y)
+    walk(code)
+    return sorted(out)
+
+
+def unpackable(t):
+    """the types UNPACK is modelled for: packable, sets / maps keyed by a simple comparable type"""
+    if t[0] in ('unit', 'bool', 'int', 'nat', 'mutez', 'timestamp', 'string', 'bytes'):
+        return True
+    if t[0] in ('option', 'list'):
+        return unpackable(t[1])
+    if t[0] == 'set':
+        return t[1] in SET_ELT or t[1] == ('unit',)
+    if t[0] in ('or', 'pair'):
+        return unpackable(t[1]) and unpackable(t[2])
+    if t[0] == 'map':
+        return (t[1] in SET_ELT or t[1] == ('unit',)) and unpackable(t[2])
+    return False
+
+
+# ---- CHECK_SIGNATURE: keys of the three curves with signatures made once with pytezos (`Key.generate` / `Key.sign`; the secret keys
+# are not kept) over the messages SIG_MSGS, plus a generic (`sig…`) signature of b'abc' per key --------------------------------
+SIG_MSGS = ['', '00', '616263', '000102030405060708090a0b0c0d0e0f101112131415161718191a1b1c1d1e1f', '050005', '78' * 200]
+SIG_KEYS = [
+    ('edpkuHyjad2vs9m2xtDyjiJF7Xfa5RecdU4gfYNzRZhqjQ59gjYzpk',
+     ['edsigtxdge6FHbHxp6J7mznGKPVRbGAzBhLxEW8FMv84t8ykQ3deWxJtFnZGtboAr2q5fQwr9zAQrGvuLJn19AaCLcdGprF9tnn',
+      'edsigtdUsfnz9UP8TibvL5yy8ZQpQo5vsRtk539Ma7W638eFjaVGwxyDnPqwek2AwshJBXkiP5t3kCh4nH4gvAyHymnRj7AGHuJ',
+      'edsigtb3yWsfzFGQ5U6nSTQRCcZwEkjqJg3R8xkjxsestoW4MJcFvXBxJbjVqwWVzCyWj2sqoBS1z1cpF7sYDGydDRMVfJAmbRX',
+      'edsigtzS2pkUDS9ThpKoQ22uh4yBHVHtTtSbgWvzquMPrn8KSpbW3k4q7SJr56rjR3mtArSQWPj18qmM14YFhwuht7YSDgTAcja',
+      'edsigtpepsNfPuVVKtr5bDmZGpEYXK1ktxwQ6G4ieSddE4PYASeSr7o9zBH6hAUDSa4oVrBYhQ1nofb613zCYJuXGzCTBGfyjME',
+      'edsigtoMdfhweig7zBSvFhcb9W1TBvLpCnWyYsr82RCqYatpWzQbxr5TzeP4ytonzh8XM5e9fCs7Yp5sgP3PagTAcgCzNDVRYQX'],
+     'sigREWPpT5yLD3Quo9KNa1fGeiyukNhQYYb4zE9JsuoA3PznKL2J3DWgFvtutC7WLNbLNBFvEdAzrUP5W1cqHFEJRZQhPcB4'),
+    ('sppk7art2y9zXhRTa9WBqd9TAbi6hbp8S4QzY8KCxgarWiHAV1oVqko',
+     ['spsig17yJa15qwSR8ATK6YeWmEMG1hYtbEcNLtwG1QC6S3YynqidzM9faKdAqEqJ2MZ3UjEHz6UHgMvWQ1sRVMG45diyJXq7BWv',
+      'spsig1D4vgjWj3kERUPFegTddpLppRKQeAwLBPsJJPW5XdXnmwDJqd5pgu1ZUu58pQT2i9rUJvTNvkmH39odjtKt5w2Y2nxhwP2',
+      'spsig1TU6ftFnc1jRZUNrUChXp6kCphF3YY6DdiDt1JL3rtjTEmN6j6RsEziUX4uWYZbEQojoCJDxXDdsjiKqgPjUMauTfQqeS1',
+      'spsig1YfyXk18qvffXXYCKH1n5xpD7qPEfAiJX5cpoH7cfw5B27ep34FCLNW2m4G1DXJHNeDnNV9tU2ZY5GnXXfwMGGRoEQbXRj',
+      'spsig1WV7kKJSJAPDbk4kwaKxTwhzwEqDsbyWSDeDZwqV44iDbVgpzNLkwfXUyLjE5wigPQt9wjCZHQvmowKpxHfsY8mZchFd6G',
+      'spsig1VZ1eB4zg9j8CZy6wbC7Kw8mgpqD3xDFLzvUDyV7R2poGnkVrfJWm7rdGzCSFNggUJCSJguBJe4WUUCqnNjCRYUnP67zC5'],
+     'sigjeRLpeY8fmHBJP6W49PAC4pusTUUUTXA96ZEWAk3zojohiHYXMVHsEcphLRVAXNL5zeTLNL65V9eRcjAX3ySNNM64tKYJ'),
+    ('p2pk666QNz4G9f9wXU8tv7giEjEy81X4tp6ypeyHEiSEiMwqBEsJWQM',
+     ['p2sigQpptgPLHeLgntL5giZKwb6ZNnmQbhpiR5R2XshZLGYoKMRLJBnEzQfJDN9fFpAX7JT4TVWtALeT3FsadusDQAgiq4yTvC',
+      'p2sigh4JX86C5xERCRP9fCHEGQWsdZJhyJPAkVLr4VwZibryvoM5Mk1eQS9V8XGRZ6LPojbvc7jXbuYL7isWmQHnf7Mwmd31Kn',
+      'p2sigbFzAMD3fetws73T1PBBs8PGHSptDvEGYYTy6RZtENWg6wCeSUnjqYqPz9VWT2SD1VtUnVCzNHSaVpHKnnV3oYK63oHoJx',
+      'p2sigQEE5WqbZMJi1E6f7fJytL3BxwZoJg5yUCUcJy7XNZWKFWj6rSWvmuTGHKG2SYpppc9hWn1guUd5N1VZRM1KxnPK8cZrU8',
+      'p2sigpkbxprTFgd44LQKKZTRE7L4Mm6Qvdz57Hj5Cf7LiC6Hxz8pLaH5x5ezTQP9jXmcJhqqfTHs55NMXtGjGc4gVc3DUGnYMe',
+      'p2sigdZuFiLnmYsfW8ntfy7nygeZqDNptWYxdFUoyrkjejADZEem47PyRk69K2Mw4uZKc79B2FqgH49bD1yUfzUe8K1pnqHJ4S'],
+     'sigbwmKG7VaBxuQAngkfaf5cvUu4AexporL6h7i27SwA4PZPvs86jecGeygxYzDbEdgsrxmQy42nVG8RbQ4C2rNGck8Aj5rN'),
+    ('edpktsomPTFRruCKe5ZhVTRsbqpV27r5LwEZMKGk16mmqriM1N8ZiS',
+     ['edsigtiUXL7Qj6FP1aqLVgzUpjPG7pUY6TE5Cr2xyYKRq2XpvSjdSjtHKfvNhLwYYd2tb8xHbhnEgaYmFk77qneCP9TTGfGLvrX',
+      'edsigtgittSXoxoMTpCXFibeKTcpmA4LRFir9bxTDHJQAf8iBD5EDboE4H9ZYN2LpS7Csozu82rYFHbFfBhsdzgu7p8nw9W8JHH',
+      'edsigtu1Z9dDPgTC137B64vtiwDApGyAZa323ggYdcHtqN8eWNEDJSkdwVEWHkWDzX9LSgzmQE2dCR7wzR6f1CU2RM5iWujgc3M',
+      'edsigtpVvWzncwUqnWWLHWTtPhEtueN8ymbetrQ5YexC4EDdzdhDa3dmJC9CLJ2rF26r8YKeVo4WFRD3zsF1A1YfuyH7zY1msF7',
+      'edsigtcPFM7wGr4HuuUcoNa1qJkoZ9WtogmixRTFjCiYzsZu7dXUJjiWBRo8cfPdeLpjVsWfzqpRPUBu6ztwvqXoNvjDKQsV735',
+      'edsigtuyujxjxWn1si3zo8HpjyeEJ3nL5UiWV6WiCHH6jDpRiiyQSrHHBtjx2pBYAxB5UKH6AohjriHNoAddeSPunCxngY95dVJ'],
+     'sigjC62ZzVQWzxyvBnvu3XyutJW95dbQ9TJzntswtrMndZ4QGhwrirQBGNhucCRgA6FTHnJWqqaVzDgJcoYKgTA2eR5XZ6XL'),
+]
+SIG_ALTERED = ['01', '616264', '61626300', '0500 05'.replace(' ', '') + '00', 'ff' + SIG_MSGS[3][2:]]      # messages nobody signed
+SIG_KNOWN_MSGS = set(SIG_MSGS) | set(SIG_ALTERED)
+
+
+def sig_triples(code):
+    """the (key, signature, message) triples a CHECK_SIGNATURE of the program can meet: every key literal x signature literal x
+    message of the idiom's message set that occurs as a bytes literal (or is packed: `PUSH nat 5 ; PACK` is 0x050005)"""
+    keys, sigs, msgs = set(), set(), set()
+
+    def walk(x):
+        if isinstance(x, list):
+            for i, y in enumerate(x):
+                walk(y)
+                if (isinstance(y, dict) and y.get('prim') == 'PACK' and i and isinstance(x[i - 1], dict) and x[i - 1].get('prim') == 'PUSH'
+                        and 'int' in x[i - 1]['args'][1]):
+                    msgs.add((b'\x05' + forge_data(x[i - 1]['args'][1])).hex())
+        elif isinstance(x, dict):
+            if 'string' in x:
+                v = x['string']
+                if v[:4] in ('edpk', 'sppk', 'p2pk'):
+                    keys.add(v)
+                elif v[:5] in ('edsig', 'spsig', 'p2sig') or v[:3] == 'sig':
+                    sigs.add(v)
+            elif 'bytes' in x and x['bytes'].lower() in SIG_KNOWN_MSGS:
+                msgs.add(x['bytes'].lower())
+            for y in x.get('args', []):
+                walk(y)
+    walk(code)
+    return [(k, s, m) for k in sorted(keys) for s in sorted(sigs) for m in sorted(msgs & SIG_KNOWN_MSGS)]
 
 
 def comb_leaves(t):
@@ -186,6 +397,8 @@ class Gen:
             return {'string': r.choice(KEY_HASHES)}
         if p == 'key':
             return {'string': r.choice(KEYS)}
+        if p == 'signature':
+            return {'string': r.choice(r.choice(SIG_KEYS)[1])}
         if p == 'option':
             if r.random() < 0.35:
                 return {'prim': 'None'}
@@ -261,7 +474,7 @@ class Gen:
             'unit': {'prim': 'Unit'}, 'bool': {'prim': 'False'}, 'int': {'int': '0'}, 'nat': {'int': '0'}, 'mutez': {'int': '0'},
             'timestamp': {'int': '0'}, 'string': {'string': ''}, 'bytes': {'bytes': ''}, 'address': {'string': ADDRS[0]},
             'chain_id': {'string': CHAINS[0]}, 'option': {'prim': 'None'}, 'list': [], 'map': [], 'set': [],
-            'key_hash': {'string': KEY_HASHES[0]}, 'key': {'string': KEYS[0]},
+            'key_hash': {'string': KEY_HASHES[0]}, 'key': {'string': KEYS[0]}, 'signature': {'string': SIG_KEYS[0][1][0]},
         }
         if p in table:
             return table[p]
@@ -309,6 +522,8 @@ class Gen:
             return [P('NIL', ty_mich(t[1]))]
         if p == 'map':
             return [P('EMPTY_MAP', ty_mich(t[1]), ty_mich(t[2]))]
+        if p == 'big_map':
+            return [P('EMPTY_BIG_MAP', ty_mich(t[1]), ty_mich(t[2]))]
         if p == 'pair':
             return self.produce(t[2]) + self.produce(t[1]) + [P('PAIR')]
         if p == 'or':
@@ -372,6 +587,9 @@ class Gen:
         add(0.9, 'KEYS', lambda: self._key_idiom(st))
         add(2.2, 'CONTRACTS', lambda: self._contract_idiom(st))
         add(1.6, 'PACKING', lambda: self._pack_idiom(st))
+        add(2.0, 'UNPACKING', lambda: self._unpack_idiom(st))
+        add(0.9, 'SIGNATURES', lambda: self._checksig_idiom(st))
+        add(1.6, 'BIGMAPS', lambda: self._bigmap_idiom(st))
         if not self.in_lambda:
             add(0.6, 'SELF', lambda: self._self(st))
         if depth > 0:
@@ -925,6 +1143,287 @@ class Gen:
         self.shape('PACK of ' + t[0])
         self.note('PACK')
         return [{'prim': 'PUSH', 'args': [ty_mich(t), val]}, {'prim': 'PACK'}], [('bytes',)] + st
+
+
+    # ---- UNPACK ---------------------------------------------------------------------------------------------------------
+    TS_TEXTS = ['1970-01-01T00:00:01Z', '2020-02-29T12:30:00Z', '2021-12-31T23:59:59+01:00', '1969-12-31T23:59:59Z', '2019-02-29T00:00:00Z',
+                '2020-01-01 00:00:00Z', '2020-01-01T00:00:00', '123', '-5', '0', '', 'abc', ' 1', '1_000', '+7', '0x10', '1e3',
+                '2020-01-01T00:00:00.5Z', '9999-12-31T23:59:59Z']
+
+    def alt_form(self, t, v):
+        """the expression `v` (nested binary `Pair`s, as gen_value writes it) of type `t` in another spelling the protocol reads as
+        the same value: right combs as `Pair x1 … xn` or `{x1; …; xn}`, possibly only partly flattened"""
+        r = self.rng
+        p = t[0]
+        if p == 'pair':
+            comps, ty, cur = [], t, v
+            # walk down the right spine while the type is a pair; stop early at random (partial flattening)
+            while ty[0] == 'pair' and isinstance(cur, dict) and cur.get('prim') == 'Pair' and (not comps or r.random() < 0.75):
+                comps.append(self.alt_form(ty[1], cur['args'][0]))
+                ty, cur = ty[2], cur['args'][1]
+            comps.append(self.alt_form(ty, cur))
+            if len(comps) == 2 and r.random() < 0.6:
+                return {'prim': 'Pair', 'args': comps}
+            as_seq = r.random() < 0.5
+            self.shape(f'UNPACK pair as {"sequence" if as_seq else "n-ary Pair"} of {min(len(comps), 4)}{"+" if len(comps) > 4 else ""}')
+            return comps if as_seq else {'prim': 'Pair', 'args': comps}
+        if p in ('option', 'or') and isinstance(v, dict) and v.get('args'):
+            return {'prim': v['prim'], 'args': [self.alt_form(t[1] if v['prim'] in ('Some', 'Left') else t[2], v['args'][0])]}
+        if p in ('list', 'set'):
+            return [self.alt_form(t[1], x) for x in v]
+        if p == 'map':
+            return [{'prim': 'Elt', 'args': [e['args'][0], self.alt_form(t[2], e['args'][1])]} for e in v]
+        return v
+
+    def broken_expr(self, t):
+        """an expression that is NOT a value of type `t` (or is one only for a lenient reader), with the reason"""
+        r = self.rng
+        P = lambda prim, *args: {'prim': prim, 'args': list(args)} if args else {'prim': prim}
+        I = lambda n: {'int': str(n)}
+        ok = self.gen_value(t, depth=2)
+        kinds = ['annotated', 'control-char', 'other-type', 'arity', 'unknown-prim', 'node-tag', 'non-minimal-int', 'negative-zero',
+                 'length-too-long', 'length-too-short']
+        p = t[0]
+        if p == 'pair':
+            kinds += ['nary-over-nonpair', 'annotated-pair', 'one-component', 'empty-seq', 'too-many']
+        if p in ('nat', 'mutez'):
+            kinds += ['negative', 'negative', 'range']
+        if p in ('set', 'map'):
+            kinds += ['unsorted', 'unsorted', 'duplicate', 'duplicate']
+        if p == 'timestamp':
+            kinds += ['text', 'text', 'text', 'text']
+        if p == 'string':
+            kinds += ['control-char', 'control-char', 'non-ascii', 'invalid-utf8', 'newline']
+        k = r.choice(kinds)
+        self.shape('UNPACK input: ' + k)
+        if k == 'annotated':
+            m = dict(ok) if isinstance(ok, dict) and 'prim' in ok else {'prim': 'Unit'}
+            return {**m, 'annots': r.choice([b'%a', b'@v', b':t', b'%a @b', b'\xff'])}
+        if k == 'annotated-pair':
+            return {**ok, 'annots': b'%x'} if isinstance(ok, dict) else ok
+        if k in ('control-char', 'non-ascii', 'invalid-utf8', 'newline'):
+            return {'text': {'control-char': r.choice([b'\x01', b'a\tb', b'\x7f', b'ab\x00', b'\r']), 'non-ascii': 'é'.encode(),
+                             'invalid-utf8': b'\xff\xfe', 'newline': b'a\nb'}[k]}
+        if k == 'other-type':
+            other = r.choice([P('Unit'), I(5), {'string': 'x'}, {'bytes': '00'}, [], [I(1)], P('Some', I(1)), P('Pair', I(1), I(2)), P('Left', P('Unit')), P('None')])
+            return other
+        if k == 'arity':
+            return r.choice([P('Unit', I(1)), P('Some'), P('Some', I(1), I(2)), P('None', I(1)), P('Left'), P('True', P('Unit')), P('Pair', I(1)), P('Elt', I(1), I(2))])
+        if k == 'unknown-prim':
+            return {'tag': r.choice([158, 159, 200, 255, 0, 1, 2]), 'args': []}
+        if k == 'node-tag':
+            return {'raw': bytes([r.choice([11, 12, 127, 255])]) + r.bytes_(r.choice([0, 1, 4]))}
+        if k == 'non-minimal-int':
+            return {'raw': b'\x00' + r.choice([b'\x80\x00', b'\x81\x80\x00', b'\xc0\x00', b'\xbf\x80\x80\x00'])}
+        if k == 'negative-zero':
+            return {'raw': b'\x00\x40'}
+        if k in ('length-too-long', 'length-too-short'):
+            body = b''.join(forge_data(I(i)) for i in range(r.choice([1, 2, 3])))
+            n = len(body) + (r.choice([1, 2, 100, 2**31]) if k == 'length-too-long' else -1)
+            return {'raw': b'\x02' + max(n, 0).to_bytes(4, 'big') + body}
+        if k == 'nary-over-nonpair':      # `Pair 1 2 3` at `pair int (list int)`: the right component is not a pair
+            return r.choice([P('Pair', I(1), I(2), I(3)), [I(1), I(2), I(3)], P('Pair', I(1), P('Elt', I(1), I(1)), P('Elt', I(2), I(1)))])
+        if k == 'one-component':
+            return r.choice([P('Pair', I(1)), [I(1)]])
+        if k == 'empty-seq':
+            return []
+        if k == 'too-many':
+            return self.alt_form(t, ok) if r.random() < 0.3 else {'prim': 'Pair', 'args': [I(1)] * r.choice([5, 9])}
+        if k == 'negative':
+            return I(-r.choice([1, 2, 64, 2**70]))
+        if k == 'range':
+            return I(r.choice([2**63 - 1, 2**63, 2**63 + 1, 2**64]))
+        if k in ('unsorted', 'duplicate'):
+            kt = t[1]
+            ks = self.distinct_sorted_keys(kt, r.choice([2, 3, 4]))
+            if len(ks) < 2:
+                ks = ks * 2
+            elif k == 'unsorted':
+                i = r.randrange(len(ks) - 1)
+                ks[i], ks[i + 1] = ks[i + 1], ks[i]
+            else:
+                ks.insert(r.randrange(len(ks)), ks[r.randrange(len(ks))])
+            return ks if p == 'set' else [P('Elt', x, self.gen_value(t[2], 1)) for x in ks]
+        if k == 'text':
+            return {'string': r.choice(self.TS_TEXTS)}
+        return ok
+
+    def _unpack_idiom(self, st):
+        """UNPACK of bytes made by PACK in the same program (at the same and at another type) and of literal byte strings: valid
+        encodings in the optimized and in the readable-equivalent spellings, truncated ones, trailing garbage, a missing or
+        different first byte, ill-typed expressions, non-minimal integers, annotated constructors, unsorted collections …"""
+        r = self.rng
+        P = lambda prim, *args: {'prim': prim, 'args': list(args)} if args else {'prim': prim}
+        t = self.gen_packable_type(2)
+        while not unpackable(t):
+            t = self.gen_packable_type(1)
+        kind = r.choice(['roundtrip', 'roundtrip', 'roundtrip', 'wrong-type', 'literal', 'literal', 'alt-form', 'alt-form', 'mangled', 'mangled',
+                         'broken', 'broken', 'broken', 'nested-broken', 'timestamp-text', 'collection-order'])
+        self.note('UNPACK')
+        self.shape('UNPACK ' + kind)
+        if kind in ('roundtrip', 'wrong-type'):
+            code, _ = self._pack_idiom([])
+            src = ty_from_mich(code[0]['args'][0])
+            if kind == 'roundtrip' and unpackable(src):
+                t = src
+            elif kind == 'wrong-type':
+                # a neighbouring type: the same expression is a value of it, or is not
+                t = r.choice([t, ('int',), ('nat',), ('timestamp',), ('mutez',), ('string',), ('bytes',), ('option', src) if unpackable(src) else ('unit',),
+                              ('list', src) if unpackable(src) else ('unit',), ('pair', ('int',), ('int',)), ('set', ('int',)), ('list', ('int',))])
+            return code + [P('UNPACK', ty_mich(t))], [('option', t)] + st
+        if kind == 'collection-order':
+            # a set / map literal inside the bytes: strictly ascending (accepted), swapped neighbours, a duplicate
+            kt = r.choice(SET_ELT)
+            t = r.choice([('set', kt), ('map', kt, ('unit',)), ('list', ('set', kt)), ('pair', ('set', kt), ('int',))])
+            ks = self.distinct_sorted_keys(kt, r.choice([2, 3, 4]))
+            how = r.choice(['ascending', 'swapped', 'swapped', 'duplicate', 'duplicate']) if len(ks) >= 2 else 'ascending'
+            if how == 'swapped':
+                i = r.randrange(len(ks) - 1)
+                ks[i], ks[i + 1] = ks[i + 1], ks[i]
+            elif how == 'duplicate':
+                j = r.randrange(len(ks))
+                ks.insert(j, ks[j])
+            self.shape('UNPACK collection keys: ' + how)
+            coll = ks if t[0] != 'map' else [P('Elt', x, P('Unit')) for x in ks]
+            expr = {'set': coll, 'map': coll, 'list': [coll], 'pair': P('Pair', coll, {'int': '0'})}[t[0]]
+            data = b'\x05' + forge_data(expr)
+            return [P('PUSH', P('bytes'), {'bytes': data.hex()}), P('UNPACK', ty_mich(t))], [('option', t)] + st
+        if kind == 'timestamp-text':
+            # a timestamp in its readable form (and texts that are not timestamps), alone and inside containers
+            txt = {'string': r.choice(self.TS_TEXTS)}
+            self.shape('UNPACK timestamp text: ' + ('RFC 3339' if 'T' in txt['string'] else ('digits' if txt['string'].lstrip('-').isdigit() else 'other')))
+            t, expr = r.choice([(('timestamp',), txt), (('option', ('timestamp',)), P('Some', txt)), (('pair', ('timestamp',), ('int',)), P('Pair', txt, {'int': '7'})),
+                                (('list', ('timestamp',)), [{'int': '5'}, txt]), (('set', ('timestamp',)), [txt]),
+                                (('map', ('timestamp',), ('unit',)), [P('Elt', txt, P('Unit'))])])
+            data = b'\x05' + forge_data(expr)
+            return [P('PUSH', P('bytes'), {'bytes': data.hex()}), P('UNPACK', ty_mich(t))], [('option', t)] + st
+        v = self.gen_value(t, depth=3)
+        if kind == 'literal':
+            data = b'\x05' + forge_data(v)
+        elif kind == 'alt-form':
+            if t[0] != 'pair' and r.random() < 0.7:
+                for _ in range(20):
+                    t = self.gen_comb_type()
+                    if unpackable(t):
+                        break
+                else:
+                    t = comb_of([('int',), ('nat',), ('string',), ('option', ('bytes',))][:r.choice([2, 3, 4])])
+                v = self.gen_value(t, depth=3)
+            data = b'\x05' + forge_data(self.alt_form(t, v))
+        elif kind == 'mangled':
+            good = b'\x05' + forge_data(self.alt_form(t, v))
+            how = r.choice(['truncated', 'truncated', 'trailing', 'trailing', 'no-prefix', 'other-prefix', 'empty', 'only-prefix', 'doubled-prefix'])
+            self.shape('UNPACK input: ' + how)
+            data = {'truncated': good[:max(1, len(good) - r.choice([1, 1, 2, 4]))], 'trailing': good + r.choice([b'\x00', b'\x03\x0b', b'\xff', good[1:]]),
+                    'no-prefix': good[1:], 'other-prefix': bytes([r.choice([0, 4, 6, 255])]) + good[1:], 'empty': b'', 'only-prefix': b'\x05',
+                    'doubled-prefix': b'\x05' + good}[how]
+        elif kind == 'broken':
+            data = b'\x05' + forge_data(self.broken_expr(t))
+        else:      # a broken component deep inside a valid container
+            inner = self.gen_packable_type(1)
+            while not unpackable(inner):
+                inner = self.gen_packable_type(1)
+            bad = self.broken_expr(inner)
+            t, expr = r.choice([(('option', inner), P('Some', bad)), (('list', inner), [self.gen_value(inner, 1), bad]),
+                                (('pair', ('int',), inner), P('Pair', {'int': '1'}, bad)), (('or', ('unit',), inner), P('Right', bad)),
+                                (('map', ('int',), inner), [P('Elt', {'int': '1'}, self.gen_value(inner, 1)), P('Elt', {'int': '2'}, bad)])])
+            data = b'\x05' + forge_data(expr)
+        return [P('PUSH', P('bytes'), {'bytes': data.hex()}), P('UNPACK', ty_mich(t))], [('option', t)] + st
+
+
+    # ---- CHECK_SIGNATURE ------------------------------------------------------------------------------------------------
+    def _checksig_idiom(self, st):
+        """a key, a signature and a message of the corpus: the signed message (true), an altered or another message, another key of the
+        same curve, a key of another curve, the generic `sig…` spelling, the empty and a long message, a message made by PACK"""
+        r = self.rng
+        P = lambda prim, *args: {'prim': prim, 'args': list(args)} if args else {'prim': prim}
+        ki = r.randrange(len(SIG_KEYS))
+        key, sigs, generic = SIG_KEYS[ki]
+        mi = r.randrange(len(SIG_MSGS))
+        msg, sig = SIG_MSGS[mi], sigs[mi]
+        kind = r.choice(['valid', 'valid', 'valid', 'altered-message', 'other-message', 'other-key-same-curve', 'other-curve', 'generic', 'generic-wrong',
+                         'packed-message', 'empty-message', 'long-message'])
+        if kind == 'altered-message':
+            msg = r.choice(SIG_ALTERED)
+        elif kind == 'other-message':
+            msg = SIG_MSGS[(mi + 1) % len(SIG_MSGS)]
+        elif kind == 'other-key-same-curve':
+            key = SIG_KEYS[3 - ki][0] if ki in (0, 3) else SIG_KEYS[0][0]
+        elif kind == 'other-curve':
+            key = SIG_KEYS[(ki + 1) % 3][0]
+        elif kind in ('generic', 'generic-wrong'):
+            sig, msg = generic, ('616263' if kind == 'generic' else '616264')
+        elif kind == 'empty-message':
+            msg, sig = SIG_MSGS[0], sigs[0]
+        elif kind == 'long-message':
+            msg, sig = SIG_MSGS[5], sigs[5]
+        self.shape('CHECK_SIGNATURE ' + kind + (' (' + key[:2] + ')' if kind == 'valid' else ''))
+        self.note('CHECK_SIGNATURE')
+        if kind == 'packed-message':
+            push_msg = [P('PUSH', P('nat'), {'int': '5'}), P('PACK')]
+            sig = sigs[4]
+        else:
+            push_msg = [P('PUSH', P('bytes'), {'bytes': msg})]
+        code = push_msg + [P('PUSH', P('signature'), {'string': sig}), P('PUSH', P('key'), {'string': key}), P('CHECK_SIGNATURE')]
+        return code, [('bool',)] + st
+
+
+    # ---- big maps created in the run ----------------------------------------------------------------------------------
+    def _bigmap_idiom(self, st):
+        """EMPTY_BIG_MAP, filled by insertions in a random order, then MEM / GET / UPDATE / GET_AND_UPDATE with the probe key present
+        (first / middle / last), absent (below / between / above), in an empty map; a removal followed by MEM / GET / a re-insertion
+        (pytezos keeps removed keys in a list of their own); the map duplicated and both copies used"""
+        r = self.rng
+        P = lambda prim, *args: {'prim': prim, 'args': list(args)} if args else {'prim': prim}
+        kt = r.choice(SET_ELT)
+        keys, probe, where = self._keys_and_probe(kt)
+        vt = self.gen_type(1)
+        while not pushable(vt):
+            vt = self.gen_type(1)
+        ct = ('big_map', kt, vt)
+        order = list(range(len(keys)))
+        r.shuffle(order)
+        code = [P('EMPTY_BIG_MAP', ty_mich(kt), ty_mich(vt))]
+        for j in order:
+            code += [P('PUSH', ty_mich(('option', vt)), P('Some', self.gen_value(vt, 1))), P('PUSH', ty_mich(kt), keys[j]), P('UPDATE')]
+        self.note('EMPTY_BIG_MAP')
+        self.shape(f'big_map size {len(keys) if len(keys) < 4 else "4+"}')
+        pk = P('PUSH', ty_mich(kt), probe)
+        some = lambda: [P('PUSH', ty_mich(('option', vt)), P('Some', self.gen_value(vt, 1))), pk]
+        none = lambda: [P('PUSH', ty_mich(('option', vt)), P('None')), pk]
+        op = r.choice(['MEM', 'GET', 'UPDATE+', 'UPDATE-', 'GET_AND_UPDATE+', 'GET_AND_UPDATE-', 'UPDATE+;GET', 'UPDATE-;MEM', 'UPDATE-;GET',
+                       'UPDATE-;UPDATE+;GET', 'GET_AND_UPDATE-;GET_AND_UPDATE-', 'DUP;UPDATE;both', 'keep'])
+        self.shape(f'big_map {op}: {where}')
+        new = [ct] + st
+        for prim in ('MEM', 'GET_AND_UPDATE', 'GET', 'UPDATE'):
+            if prim in op.replace('GET_AND_UPDATE', 'X') or (prim == 'GET_AND_UPDATE' and 'GET_AND_UPDATE' in op):
+                self.note(prim)
+        if op == 'MEM':
+            return code + [pk, P('MEM')], [('bool',)] + st
+        if op == 'GET':
+            return code + [pk, P('GET')], [('option', vt)] + st
+        if op == 'UPDATE+':
+            return code + some() + [P('UPDATE')], new
+        if op == 'UPDATE-':
+            return code + none() + [P('UPDATE')], new
+        if op == 'GET_AND_UPDATE+':
+            return code + some() + [P('GET_AND_UPDATE')], [('option', vt)] + new
+        if op == 'GET_AND_UPDATE-':
+            return code + none() + [P('GET_AND_UPDATE')], [('option', vt)] + new
+        if op == 'UPDATE+;GET':
+            return code + some() + [P('UPDATE'), P('DUP'), pk, P('GET')], [('option', vt)] + new
+        if op == 'UPDATE-;MEM':
+            return code + none() + [P('UPDATE'), P('DUP'), pk, P('MEM')], [('bool',)] + new
+        if op == 'UPDATE-;GET':
+            return code + none() + [P('UPDATE'), P('DUP'), pk, P('GET')], [('option', vt)] + new
+        if op == 'UPDATE-;UPDATE+;GET':
+            return code + none() + [P('UPDATE')] + some() + [P('UPDATE'), P('DUP'), pk, P('GET')], [('option', vt)] + new
+        if op == 'GET_AND_UPDATE-;GET_AND_UPDATE-':
+            return code + none() + [P('GET_AND_UPDATE'), P('SWAP')] + none() + [P('GET_AND_UPDATE')], [('option', vt), ct, ('option', vt)] + st
+        if op == 'DUP;UPDATE;both':
+            # a big map is duplicable: updating one copy must not show in the other
+            return code + [P('DUP')] + none() + [P('UPDATE'), pk, P('MEM'), P('SWAP'), pk, P('MEM')], [('bool',), ('bool',)] + st
+        return code, new
 
     def _hash_idiom(self, st):
         """hash a pushed byte string (lengths around the block sizes of the five functions), sometimes twice"""
